@@ -122,6 +122,7 @@ func cmdOpFront(args []string) error {
 	var curMu sync.Mutex
 	var curAdmin http.Handler
 	loseNext := false // the next request is carried out, but its answer never reaches the caller (connection closed)
+	dropPublishAt, dropMode, publishSeen := 0, "", 0 // the k-th publish request of the case is NOT carried out: connection closed ("drop") or a 200 with half a body ("half")
 	go func() {
 		_ = http.Serve(ln, http.HandlerFunc(func(w http.ResponseWriter, req *http.Request) {
 			curMu.Lock()
@@ -130,7 +131,26 @@ func cmdOpFront(args []string) error {
 			if lose {
 				loseNext = false
 			}
+			mode := ""
+			if req.Method == http.MethodPost && strings.HasSuffix(req.URL.Path, "/publish") {
+				publishSeen++
+				if dropPublishAt != 0 && publishSeen == dropPublishAt {
+					mode = dropMode
+				}
+			}
 			curMu.Unlock()
+			if mode != "" {
+				if hj, ok := w.(http.Hijacker); ok {
+					if conn, buf, err := hj.Hijack(); err == nil {
+						if mode == "half" {
+							buf.WriteString("HTTP/1.1 200 OK\r\nContent-Type: application/json\r\nContent-Length: 64\r\n\r\n{\"published\":")
+							buf.Flush()
+						}
+						conn.Close()
+					}
+				}
+				return
+			}
 			if h == nil {
 				w.WriteHeader(503)
 				return
@@ -222,6 +242,7 @@ func cmdOpFront(args []string) error {
 		var pubPayload []map[string]interface{}
 		var pub3 []map[string]interface{}
 		var pub3Items []pubItem
+		pub3DropAt, pub3DropMode := 0, ""
 		if kind == "publish3" {
 			// ONE messages_publish call with items for three managed endpoints: the tool turns it into three Admin calls. With
 			// an id that already exists in the last group the call fails after the first two batches were accepted: none of
@@ -231,7 +252,12 @@ func cmdOpFront(args []string) error {
 				j := r.intn(i + 1)
 				groups[i], groups[j] = groups[j], groups[i]
 			}
-			dup := r.chance(65)
+			dup := r.chance(45)
+			if !dup && r.chance(60) {
+				// the Admin API does not answer the publish of the 2nd or 3rd group: the connection is closed, or the answer
+				// stops after half a body; that batch is not carried out
+				pub3DropAt, pub3DropMode = 2+r.intn(2), pick(r, []string{"drop", "half"})
+			}
 			for gi, g := range groups {
 				id := fmt.Sprintf("p3-%d-%d", c, gi)
 				if dup && gi == len(groups)-1 {
@@ -350,6 +376,8 @@ func cmdOpFront(args []string) error {
 
 		resp := jresp{T: "err"}
 		raw := ""
+		toolAnswered, toolIsError := false, false // MCP vias: the tool's own verdict on the call, and what it wrote to the audit log
+		auditResults := []string{}
 		if kind == "publish" || kind == "publish3" {
 			delete(argsM, "ids")
 		}
@@ -370,6 +398,7 @@ func cmdOpFront(args []string) error {
 				curMu.Lock()
 				curAdmin = rtp.AdminServer(store)
 				loseNext = lostAnswer
+				dropPublishAt, dropMode, publishSeen = pub3DropAt, pub3DropMode, 0
 				curMu.Unlock()
 			}
 			if kind == "publish" {
@@ -399,12 +428,24 @@ func cmdOpFront(args []string) error {
 				"params": map[string]interface{}{"name": tool, "arguments": argsM}})), &ob, mcpCfg, dbPath,
 				mcp.WithRole(mcp.RoleAdmin), mcp.WithMutationsEnabled(true), mcp.WithPrincipal("ops@example"), mcp.WithAuditWriter(&ab))
 			_ = s.Serve(context.Background())
+			toolAnswered = true
+			for _, line := range strings.Split(ab.String(), "\n") {
+				var m map[string]interface{}
+				if strings.TrimSpace(line) != "" && json.Unmarshal([]byte(line), &m) == nil {
+					res, _ := m["result"].(string)
+					auditResults = append(auditResults, res)
+				}
+			}
 			for _, fr := range readFrames(ob.Bytes()) {
+				if _, ok := fr["error"]; ok {
+					toolIsError = true
+				}
 				res, ok := fr["result"].(map[string]interface{})
 				if !ok {
 					continue
 				}
 				if b, _ := res["isError"].(bool); b {
+					toolIsError = true
 					if cs, ok := res["content"].([]interface{}); ok && len(cs) > 0 {
 						raw, _ = cs[0].(map[string]interface{})["text"].(string)
 					}
@@ -486,14 +527,17 @@ func cmdOpFront(args []string) error {
 			raw = raw[:300]
 		}
 		if kind == "publish3" {
-			emit(map[string]interface{}{"k": "frontpub3", "case": c, "via": via, "items": pub3Items, "existing": ids[0], "resp": resp, "raw": raw, "before": before, "after": after})
+			emit(map[string]interface{}{"k": "frontpub3", "case": c, "via": via, "items": pub3Items, "existing": ids[0], "resp": resp, "raw": raw, "before": before, "after": after,
+				"dropAt": pub3DropAt, "dropMode": pub3DropMode, "toolAnswered": toolAnswered, "toolIsError": toolIsError, "audit": auditResults})
 			continue
 		}
 		if kind == "publish" {
-			emit(map[string]interface{}{"k": "frontpub", "case": c, "via": via, "lostAnswer": lostAnswer, "items": pubItems, "selector": [2]string{app_, name}, "resp": resp, "raw": raw, "before": before, "after": after})
+			emit(map[string]interface{}{"k": "frontpub", "case": c, "via": via, "lostAnswer": lostAnswer, "items": pubItems, "selector": [2]string{app_, name}, "resp": resp, "raw": raw, "before": before, "after": after,
+				"toolAnswered": toolAnswered, "toolIsError": toolIsError, "audit": auditResults})
 			continue
 		}
-		emit(map[string]interface{}{"k": "front", "case": c, "via": via, "lostAnswer": lostAnswer, "op": op, "selector": [2]string{app_, name}, "expectRefusal": expectRefusal, "resp": resp, "raw": raw, "before": before, "after": after})
+		emit(map[string]interface{}{"k": "front", "case": c, "via": via, "lostAnswer": lostAnswer, "op": op, "selector": [2]string{app_, name}, "expectRefusal": expectRefusal, "resp": resp, "raw": raw, "before": before, "after": after,
+			"toolAnswered": toolAnswered, "toolIsError": toolIsError, "audit": auditResults})
 	}
 	return nil
 }
